@@ -77,7 +77,7 @@ func vC18MaxLen(unit rune) int {
 	case 'H':
 		return 40
 	case 'D':
-		return vkit.Scale(70, 400)
+		return vkit.Scale(70, 120)
 	case 'M':
 		return vkit.Scale(30, 50)
 	}
@@ -126,7 +126,7 @@ func TestVerifC18_RangeWindow(t *testing.T) {
 		}
 	}
 	vkit.Extra("exhaustive", true)
-	vkit.Extra("window", "H: hourly starts 2019-11..2021-03 (quick: +-36h around each month boundary) x 0..40h; D: daily starts x 0..70 (thorough 400) days; M: 2018-01..2022-12 x 0..30 (50) months; Y: 2014..2025 x 0..4 years")
+	vkit.Extra("window", "H: hourly starts 2019-11..2021-03 (quick: +-36h around each month boundary) x 0..40h; D: daily starts x 0..70 (thorough: 2018-11..2023-03 x 0..120) days; M: 2018-01..2022-12 x 0..30 (50) months; Y: 2014..2025 x 0..4 years")
 }
 
 // vC18GenTime draws a time aligned to unit, biased towards month ends, year ends and leap days.
@@ -238,7 +238,7 @@ func TestVerifC18_TimeOfView(t *testing.T) {
 				c.Done()
 				t.Fatalf("timeOfView(%q,true)=%s want %s", name, got.Format(vC18Layout), wantEnd.Format(vC18Layout))
 			}
-			c.Class("unit:" + string(unit)).Class("hour:%02d", ts.Hour())
+			c.Class("unit:"+string(unit)).Class("hour:%02d", ts.Hour())
 			c.NT(ts.Hour() >= 12 || ts.Day() >= 28 || ts.Month() == 12 || ts.Month() == 2)
 			c.Sample(map[string]string{"view": name, "start": wantStart.Format(vC18Layout), "end": wantEnd.Format(vC18Layout)})
 			c.Done()
@@ -276,7 +276,7 @@ func TestVerifC18_MinMaxViews(t *testing.T) {
 		views = rapid.Permutation(views).Draw(t, "order")
 		c := vkit.NewCase().Key("mm", q, views)
 		defer c.Done()
-		c.Class("q:" + string(q)).ClassIf(withStd, "withStandardView")
+		c.Class("q:"+string(q)).ClassIf(withStd, "withStandardView")
 		sort.Slice(tss, func(i, j int) bool { return tss[i].Before(tss[j]) })
 		c.NT(len(set) >= 4 && withStd)
 		c.Sample(map[string]interface{}{"q": q, "views": views})
